@@ -399,6 +399,11 @@ def build_problem(spec, trace=None, setup=True, mode=None, force_alloc_complex=F
             g.add_subsystem(cs['name'], ivc, **_promote_kwargs(cs))
         else:
             g.add_subsystem(cs['name'], make_component(cs, trace=trace), **_promote_kwargs(cs))
+            for (old_name, alias, idx2, flat2, shape1) in cs.get('promotes_idx', []):
+                kw = {'src_indices': dec_idx(idx2), 'src_shape': tuple(shape1)}
+                if flat2 is not None:
+                    kw['flat_src_indices'] = flat2
+                g.promotes(cs['name'], inputs=[(old_name, alias)], **kw)
 
     for key, gs in spec.get('groups', {}).items():
         g = groups[key]
